@@ -528,4 +528,75 @@ theorem step_noadd {s s' : St} {t t' : Th} (hA : InvA s) (hst : s.stopped = true
   · exact wkStep_wgc_le h
   · intro o; rw [sdBody_wgc h]; exact Nat.le_refl _
 
+/-! ## `ErrDaemonAlreadyStopped` only with the flag set -/
+
+theorem spawn1_tr_mem {s : St} {i : Nat} {e : Ev} (h : e ∈ (spawn1 s i).tr) :
+    e ∈ s.tr ∨ ∃ nm o, e = .start i nm o := by
+  by_cases hpc : (s.objs i).pc = .reg
+  · rw [spawn1_reg hpc] at h
+    simp only [emit_tr, List.mem_append, List.mem_singleton] at h
+    rcases h with h | h
+    · exact Or.inl h
+    · exact Or.inr ⟨_, _, h⟩
+  · rw [spawn1_not_reg hpc] at h; exact Or.inl h
+
+/-- **`ErrDaemonAlreadyStopped` is returned only when the stopped flag is set**: a step of a `BackgroundWorker` call that
+appends the refusal `stopped` to the trace is taken in a state with the flag set (the unlocked pre-check or the re-check
+under the lock; every other outcome of the critical section is another refusal, or an acceptance). -/
+theorem bw_refused_stopped_only_when_stopped {s s' : St} {c name : Nat} {order : Int} {pc : CallPc} {t' : Th}
+    (h : (s', t') ∈ step true true s (.bw c name order pc))
+    (hr : Ev.refuse c name .stopped ∈ s'.tr) (hn : Ev.refuse c name .stopped ∉ s.tr) : s.stopped = true := by
+  cases hst : s.stopped with
+  | true => rfl
+  | false =>
+    exfalso
+    cases pc with
+    | call =>
+      simp only [step, hst, Bool.false_eq_true, if_false, List.mem_singleton, Prod.mk.injEq] at h
+      rw [h.1] at hr
+      simp only [emit_tr, List.mem_append, List.mem_singleton] at hr
+      rcases hr with hr | hr
+      · exact hn hr
+      · cases hr
+    | passed =>
+      simp only [step, List.mem_map] at h
+      obtain ⟨s1, hs1, heq⟩ := h
+      injection heq with h1 _
+      subst h1
+      have hreg : ∀ base, s1 ∈ register s c name order base → False := by
+        intro base hb
+        obtain ⟨l, _, rfl⟩ := mem_register hb
+        have htr : ∀ e, e ∈ (regState s c name order l).tr → e ∈ s.tr ∨ e = .accept c name s.n := by
+          intro e he
+          rw [regState_tr] at he
+          simpa using he
+        split at hr
+        · rcases spawn1_tr_mem hr with h1 | ⟨_, _, h1⟩
+          · rcases htr _ h1 with h2 | h2
+            · exact hn h2
+            · cases h2
+          · cases h1
+        · rcases htr _ hr with h2 | h2
+          · exact hn h2
+          · cases h2
+      have hem : ∀ w : Why, w ≠ .stopped → s1 = emit (.refuse c name w) s → False := by
+        intro w hw e
+        rw [e] at hr
+        simp only [emit_tr, List.mem_append, List.mem_singleton] at hr
+        rcases hr with hr | hr
+        · exact hn hr
+        · injection hr with _ _ h3; exact hw h3.symm
+      unfold bwCrit at hs1
+      simp only [hst, Bool.and_false, Bool.false_eq_true, if_false] at hs1
+      split at hs1
+      · simp at hs1; exact hem .panic (by simp) hs1
+      · split at hs1
+        · split at hs1
+          · simp at hs1; exact hem .dup (by simp) hs1
+          · split at hs1
+            · simp at hs1; exact hem .running (by simp) hs1
+            · exact hreg _ hs1
+        · exact hreg _ hs1
+    | fin => simp [step] at h
+
 end Hive.Daemon
